@@ -49,6 +49,11 @@ struct in_s nondet_in(void);
 #endif
 
 static const uint8_t SCRIPT[SLEN] = { SCRIPT_OPS };
+#ifdef SK_LEN
+/* skeleton: the structure bytes of the document are concrete (SK_MASK[i] == 1), payload bytes stay symbolic */
+static const uint8_t SK[SK_LEN] = { SK_BYTES };
+static const uint8_t SKM[SK_LEN] = { SK_MASK };
+#endif
 
 static binson_type kind2type(uint8_t k)
 {
@@ -151,6 +156,9 @@ void harness(void)
     LOAD_INPUTS();
     EXACT_BYTES(buf, NB);
     for (size_t i = 0; i < NB; i++) buf[i] = IN.buf[i];
+#ifdef SK_LEN
+    for (size_t i = 0; i < SK_LEN; i++) { if (SKM[i]) buf[i] = SK[i]; }
+#endif
     EXACT_ARRAY(binson_state, st, DEPTH);
     for (size_t i = 0; i < DEPTH; i++) st[i] = IN.st0[i];
     binson_parser p = IN.p0;
